@@ -40,6 +40,9 @@ pub enum Mv {
     Deliver(usize),
     /// nothing arrives during the rest of this race window
     Expire,
+    /// two results arrive back to back: the second is already in the channel when the connecting
+    /// thread gets to look at the first
+    Burst(usize, usize),
 }
 
 struct Peer {
@@ -236,6 +239,8 @@ pub fn execute(sc: &Scn, choices: &[usize]) -> Exec {
     let mut main_running_since: Option<Instant> = None;
     let mut expect_threads = 0usize;
     let mut in_window_since: Option<Instant> = None;
+    // results already in the channel that the connecting thread has not looked at yet
+    let mut queued = 0usize;
     loop {
         if t_start.elapsed() > Duration::from_secs(30) {
             ex.machinery = Some("execution exceeded 30 s".into());
@@ -261,7 +266,13 @@ pub fn execute(sc: &Scn, choices: &[usize]) -> Exec {
                     ("he.attempt", "he.attempt.result") => {}
                     ("user", "he.spawn") => {
                         ex.spawn_order.push(*detail);
-                        in_window = true;
+                        // a result that is already queued ends the coming window at once: nothing to decide in it
+                        if queued > 0 {
+                            queued -= 1;
+                            in_window = false;
+                        } else {
+                            in_window = true;
+                        }
                         in_drain = false;
                         // the attempt thread spawned next must have shown up before anything is decided
                         expect_threads = threads.len() + 1;
@@ -334,6 +345,13 @@ pub fn execute(sc: &Scn, choices: &[usize]) -> Exec {
         let mut moves: Vec<Mv> = pending.iter().map(|(_, ai)| Mv::Deliver(*ai)).collect();
         if in_window {
             moves.push(Mv::Expire);
+            for (_, a) in &pending {
+                for (_, b) in &pending {
+                    if a != b {
+                        moves.push(Mv::Burst(*a, *b));
+                    }
+                }
+            }
         }
         let shape_mark = if in_window { 0 } else { 100 };
         if moves.is_empty() {
@@ -358,6 +376,47 @@ pub fn execute(sc: &Scn, choices: &[usize]) -> Exec {
                 in_window = false;
                 main_running_since = None;
                 // stay in drain mode if we were draining
+            }
+            Mv::Burst(a, b) => {
+                let ta = pending.iter().find(|(_, x)| *x == a).unwrap().0;
+                let tb = pending.iter().find(|(_, x)| *x == b).unwrap().0;
+                delivered.push(a);
+                gates.release(ta);
+                // the connecting thread has taken the first result and is held right behind the receive
+                let t0 = Instant::now();
+                let mut held = false;
+                while t0.elapsed() < Duration::from_millis(3000) {
+                    if matches!(gates.threads()[0].status, St::Parked { label: "he.wait.got", .. }) {
+                        held = true;
+                        break;
+                    }
+                    std::thread::sleep(Duration::from_millis(1));
+                }
+                if !held {
+                    ex.machinery = Some("burst: the connecting thread did not take the first result".into());
+                    break;
+                }
+                // the second result goes into the channel meanwhile
+                delivered.push(b);
+                gates.release(tb);
+                let t0 = Instant::now();
+                let mut sent = false;
+                while t0.elapsed() < Duration::from_millis(3000) {
+                    let th = gates.threads();
+                    if matches!(th[tb].status, St::Parked { label: "he.attempt.sent", .. }) || th[tb].status == St::Exited {
+                        sent = true;
+                        break;
+                    }
+                    std::thread::sleep(Duration::from_millis(1));
+                }
+                if !sent {
+                    ex.machinery = Some("burst: the second result was not sent".into());
+                    break;
+                }
+                queued += 1;
+                in_window = false;
+                main_running_since = None;
+                // (the connecting thread is released from its gate by the next round of the loop)
             }
             Mv::Expire => {
                 // wait for the main thread to reach its next gate (the window is 200 ms of real time)
